@@ -411,6 +411,75 @@ func ruleEdgeSign(c *Ctx, r *RuleResult, fnName string, add bool) {
 						continue
 					}
 				}
+				// an unexported helper of the same graph that does the bookkeeping: adjustCounts(i, j, +1)
+				if cal := x.Call.StaticCallee(); cal != nil && c.inModule(cal) && cal.Blocks != nil && len(x.Call.Args) > 0 && x.Call.Args[0] == ssa.Value(recv) && len(cal.Params) == len(x.Call.Args) {
+					argOf := func(v ssa.Value) ssa.Value { // the caller's value of a callee parameter
+						for k, p := range cal.Params {
+							if ssa.Value(p) == v {
+								return x.Call.Args[k]
+							}
+						}
+						return nil
+					}
+					for _, cb := range cal.Blocks {
+						for _, cin := range cb.Instrs {
+							st, ok := cin.(*ssa.Store)
+							if !ok {
+								continue
+							}
+							field, idx := "", ssa.Value(nil)
+							switch a := st.Addr.(type) {
+							case *ssa.FieldAddr:
+								if a.X == ssa.Value(cal.Params[0]) {
+									field = a.X.Type().Underlying().(*types.Pointer).Elem().Underlying().(*types.Struct).Field(a.Field).Name()
+								}
+							case *ssa.IndexAddr:
+								if ld, ok := a.X.(*ssa.UnOp); ok && ld.Op == token.MUL {
+									if fa, ok := ld.X.(*ssa.FieldAddr); ok && fa.X == ssa.Value(cal.Params[0]) {
+										field = fa.X.Type().Underlying().(*types.Pointer).Elem().Underlying().(*types.Struct).Field(fa.Field).Name()
+										idx = a.Index
+									}
+								}
+							}
+							if field != "NumberOfEdges" && field != "DegreeSequence" {
+								continue
+							}
+							bo, ok := st.Val.(*ssa.BinOp)
+							sign := 0
+							if ok && (bo.Op == token.ADD || bo.Op == token.SUB) {
+								amount := bo.Y
+								if a := argOf(amount); a != nil {
+									amount = a
+								}
+								if k, isK := constInt(amount); isK && (k == 1 || k == -1) {
+									sign = int(k)
+									if bo.Op == token.SUB {
+										sign = -sign
+									}
+								}
+							}
+							want := -1
+							if add {
+								want = 1
+							}
+							if sign != want {
+								okSigns = false
+								r.find(fnName+":"+field+" update has the wrong sign", c.instrPos(x), "%s updates %s through %s by something other than %s1", fnName, field, c.short(cal), map[bool]string{true: "+", false: "-"}[add])
+								continue
+							}
+							if field == "NumberOfEdges" {
+								cnt++
+							} else if a := argOf(idx); a == pi {
+								degI++
+							} else if a == pj {
+								degJ++
+							} else {
+								okSigns = false
+								r.find(fnName+":DegreeSequence updated at a foreign index", c.instrPos(x), "%s updates DegreeSequence through %s at an index that is neither endpoint", fnName, c.short(cal))
+							}
+						}
+					}
+				}
 				if cal := x.Call.StaticCallee(); cal != nil && len(x.Call.Args) > 0 {
 					field, _ := fieldOf(x.Call.Args[0])
 					if field == "Neighbourhoods" {
